@@ -9,18 +9,18 @@ NOTE = ("Trusted: Coq 8.16.1 kernel; no axioms (Print Assumptions: closed under 
         "OCaml driver; Go harness; python orchestrator. The model (coq/Model) is hand-written from the Go sources; the tie to /repo is the "
         "correspondence run of this check, which is differential testing bounded by its generators. ")
 CLAIMS = {
- "C01": ("Theorems about the model of merge.go/match.go (Properties/C01.v) + correspondence: 2-4 layer chains with directives at any position applied through MergeDocument, Documents() compared after every layer, OutputDocuments at the end.", "third-party YAML round trip inside deepClone is taken as the identity (integral floats excluded)."),
- "C02": ("Theorems about the parser state machine (target selection, order preservation; Properties/C02.v) + correspondence over call histories: base streams, layers with parent links, document-level $match/$invert/null; Documents() compared after every call.", "value semantics of documents (no aliasing) is exactly what the history correspondence tests."),
- "C06": ("Theorem unescape(escape s) = s for all strings and identity lemmas of the evaluator on plain trees (Properties/C06.v) + correspondence: plain, escaped and layered documents over a $-heavy alphabet compared with the generating tree and the model.", ""),
- "C07": ("Theorems that every successful output is the finalisation of a validated tree (Properties/C07.v) + correspondence: $required and directive-shaped strings injected anywhere in layer chains; ok/err with error class and outputs compared; outputs scanned for markers.", "unicode.IsLower above ASCII is an oracle table (python unicodedata, category Ll)."),
- "C09": ("Theorems: evaluation is a function of its inputs, order-independence of the model's traversals (Properties/C09.v) + repeated execution: same input 4x in-process, 2 fresh processes, 8/32 goroutines (race detector in thorough), bkl binary 3x; all identical and equal to the model.", "goroutine half is empirical; package-level state checked syntactically."),
- "C10": ("Theorems about reference resolution in the live-document model (Properties/C10.v) + correspondence: every reference form, same- and cross-document, chains, hidden templates, dangling/ambiguous; compared with the model and with the hand-inlined document.", "yaml.Unmarshal of reference strings is an oracle table computed with yaml.v3 directly. Overlapping host/target: step theorems only (partial)."),
- "C11": ("Theorems about find_outputs/filter_output (Properties/C11.v) + correspondence on trees with $output markers on any subset of maps and lists.", ""),
- "C12": ("Theorems about repeat_gen enumeration (Properties/C12.v) + correspondence: $repeat at document level, in lists, in maps, named counts; compared with the model and with the hand-expanded stream.", ""),
- "C13": ("Theorems about the template scanner and substitution (Properties/C13.v) + correspondence with a controlled environment per case.", "environment values that themselves look like directives are outside the generator (DESIGN.md D18)."),
- "C14": ("Theorems: base64 round trip, transform equations, stacking is a left fold (Properties/C14.v) + correspondence where sha256/json/yaml/toml tables come from independent implementations (hashlib, encoding/json, yaml.v3, go-toml, python parsers).", "codecs and sha256 are oracles."),
- "C17": ("Theorems that required() keeps exactly the $required skeleton: leaves, positions, count, empty-iff, idempotence (Properties/C17.v) + differential run of the real bklr and bkl binaries on generated layer chains in mixed formats.", ""),
- "C19": ("Theorems that observers leave the parser state unchanged and are repeatable (Properties/C19.v) + correspondence on call histories interleaving merges and every output method; implementation-only oracles for byte-identical repetition and unchanged Documents().", ""),
+ "C01": ("12 theorems for all trees: key-by-key characterisation of map merge (C01_map_keywise), reject-iff (C01_map_reject_iff), $replace, scalars, null, list concat/replace/delete, extra keys, type clashes, frame over any number of layers; tied by 2-4 layer chains with directives at any position through MergeDocument, Documents() after every layer, OutputDocuments at the end.", "deepClone's YAML round trip is taken as the identity (whole-valued doubles excluded)."),
+ "C02": ("Theorems: the target-selection rule as one equation (C02_targets), independence of every target and untouched others for any target set (C02_independent), order preservation; tied by call histories (base streams, parent links, document-level $match/$invert/null), Documents() compared after every call.", "that Go values behave as values (no aliasing) is what the history correspondence tests."),
+ "C06": ("Theorems: identity on plain documents (C06_identity), escape theorem for arbitrary data eval[esc v] = [dn v] (C06_escape), escaped strings are never directives, unescape(escape s) = s; tied by plain, escaped and layered documents compared with the generating tree and the model.", "hypotheses: maps sorted before and after escaping (monotonicity of escaping not proved), nesting depth <= the depth guard."),
+ "C07": ("Theorem C07_outputs_valid for every input and every directive: each output document is the unescaping of a tree validation accepted; marker refusal, $required sticks through unmentioning layers; tied by chains with $required and directive-shaped strings injected anywhere, ok/err with error class and outputs compared, outputs scanned.", "unicode.IsLower above ASCII is an oracle table (python unicodedata)."),
+ "C09": ("Theorems: order-independence of the two map-order loops whose order is observable (merge entries, validation), evaluation is a function, repeated Output; tied by repeated execution: 4x in-process, 2 fresh processes, different histories concurrently from several goroutines (race detector in thorough), Output bytes held and compared, bkl binary 3x.", "goroutine half is empirical; package-level state checked syntactically."),
+ "C10": ("Theorems: $replace/$merge:/$replace: step equations, $replace with a directive-free target evaluates exactly as the target in place, detached evaluation never writes to any document (target intact), string and list forms agree, dangling and ambiguous references are errors; tied by every reference form incl. nested references inside targets, vs model and vs the hand-inlined document.", "yaml.Unmarshal of reference strings is an oracle table (yaml.v3 called directly). $merge 'as if inline' is step equations only; overlapping host/target is order-dependent by design (partial)."),
+ "C11": ("Theorems: find_outputs refines strip/marks, filter_output refines hide, the output documents are exactly the marked subtrees in marks order with hidden parts removed (C11_select), malformed markers are errors; tied by trees with markers on any subset of maps and lists incl. nested selections.", ""),
+ "C12": ("Theorems: $repeat: n = n copies bound 0..n-1, named counts = lexicographic product of the sorted names (C12_doc_named), product size, non-integer counts are errors; tied by documents with $repeat at document level, in lists and maps, vs model and vs the hand-expanded stream.", "nested list/map repeats: correspondence only."),
+ "C13": ("Theorems: the scanner splits a template of any number of segments into exactly its literals and references (C13_scan), a missing reference is an error, $env values; tied by templates with a per-case environment.", "known finding F-C13-env-dollar: environment values containing '$'."),
+ "C14": ("Theorems: base64 decode inverts encode for every byte string, equations for each transform, flags, stacking is a left fold, bad arguments; tied by a model whose sha256/json/yaml/toml tables come from independent implementations (hashlib, encoding/json, yaml.v3, go-toml, python parsers).", "codecs and sha256 are oracles."),
+ "C17": ("Theorems: skeleton (C17_leaves), positions, count, empty-iff, idempotence, and bkl fails with the required-field error iff bklr's output is non-empty (C17_agrees_bkl); tied by the real bklr and bkl binaries on mixed-format layer chains.", ""),
+ "C19": ("Theorems: observers leave the state unchanged, repeatable, and for every history dropping the output calls changes neither the final state nor any merge result (C19_history); tied by call histories interleaving merges and every output method, byte-identical repetition and unchanged Documents().", ""),
 }
 NOT_YET = "check under construction in this round (see DESIGN.md section 6); will be claimed when its correspondence runs"
 m = {"version": 1, "setup_cmd": "./setup.sh",
